@@ -12,7 +12,7 @@ META = {
             'record, highest record written) as invariants RecordsAsPut / LofIsReclenTimesHighest and action properties '
             'GetYieldsLastPut / LocIsLastAccessed / Isolation. TLC checks them on every reachable state of the bounded model '
             '(2 file numbers on 2 files, record lengths 1..3, records 1..5 explicit or implicit + invalid numbers, content ids, '
-            '<= 5/6 operations incl. close/reopen with another record length), and must FIND the reproduced PUT-with-gap defect '
+            '<= 5..8 operations incl. close/reopen with another record length), and must FIND the reproduced PUT-with-gap defect '
             'when the model uses the transition as coded (AsCoded). Every transition of a bounded model is emitted and replayed '
             'as BASIC statements on a real Session; these and random histories (record lengths 1..128, gaps, repeats, reopen, '
             'pre-existing files, two numbers, record-number bounds) are validated event by event by RandFile_Trace.tla on: FIELD '
@@ -348,7 +348,7 @@ def run(ctx):
     ctx.cov['rule'] = ('events = BASIC statements (OPEN+FIELD, FIELD, LSET, RSET, PUT, GET, CLOSE) executed on a real Session and '
                        'judged by TLC; distinct by (statement, observation); non-trivial = PUT/GET/LSET/RSET events')
     # 1. design: exhaustive bounded model checks (record-level statement over history variables)
-    ctx.model_check('RandFile_MC', cfg='RandFile_MC_one.cfg', require_actions=False, workers=4)
+    ctx.model_check('RandFile_MC', cfg=ctx.pick('RandFile_MC_one.cfg', 'RandFile_MC_one_big.cfg'), require_actions=False, workers=4)
     ctx.model_check('RandFile_MC', cfg=ctx.pick('RandFile_MC.cfg', 'RandFile_MC_big.cfg'), require_actions=False, workers=4)
     # selftest: with PUT as coded before the repair TLC must find the gap defect (guards against vacuous invariants)
     r = ctx.tlc('RandFile_MC', 'RandFile_MC_ascoded.cfg', workers=1, tag='ascoded-selftest', expect_fail=True)
